@@ -12,7 +12,13 @@ does not establish).
 -/
 import SharkVerif.Lemmas.Par
 import SharkVerif.Lemmas.ParCrit
+import SharkVerif.Lemmas.ParWide
+import SharkVerif.Lemmas.ParSummaryMachine
+import SharkVerif.Lemmas.ParLock
+import SharkVerif.Lemmas.ParCow
+import SharkVerif.Lemmas.ParLockReduce
 import SharkVerif.Gen.ParRegions
+import SharkVerif.Model.ParRoutines
 namespace SharkVerif.C20
 open SharkVerif.Par
 
@@ -235,6 +241,462 @@ theorem ranges_cover_exactly_once (B T : Nat) (hT : 1 ≤ T) (b : Nat) (hb : b <
     · exact h
     · have := hmono (t+1) u (by omega)
       rw [hnext t] at h2; omega
+
+
+/-! ## Widened statements (round 2) -/
+
+/-- **Critical sections that only commute up to an equivalence** (e.g. `result.emplace_back`, `model.addModel` +
+`complements.push_back`: the collected list depends on the order of entry, its content as a multiset does not).
+`R` is any equivalence respected by all updates and up to which they commute.  After every complete schedule, for any
+number of threads, a protected location is `R`-related to the thread-by-thread (single-threaded order) result; all
+other locations are as in `crit_schedule_independent`.  A critical section is one atomic update of one record-valued
+location (several variables updated in the same section are one record, so their alignment is part of the value). -/
+theorem crit_schedule_independent_upto (R : V → V → Prop) (hrefl : ∀ v, R v v) (htrans : ∀ a b c, R a b → R b c → R a c)
+    (T : Nat) (m0 : Store V) (r0 : Nat → Regs V) (progs : Nat → List (Instr V))
+    (hok : CritOK T progs)
+    (hcong : ∀ l, ∀ f ∈ seqUpd T m0 r0 progs l, ∀ v w, R v w → R (f v) (f w))
+    (hcomm : ∀ l, ∀ f ∈ seqUpd T m0 r0 progs l, ∀ g ∈ seqUpd T m0 r0 progs l, ∀ v, R (f (g v)) (g (f v)))
+    (s : List Nat) (hf : Finished (run (initCfg m0 r0 progs) s)) :
+    (∀ l, (∃ t, l ∈ crits (progs t)) →
+        R ((run (initCfg m0 r0 progs) s).mem l) (applyAll (m0 l) (seqUpd T m0 r0 progs l))) ∧
+    (∀ t l, l ∈ writes (progs t) →
+        (run (initCfg m0 r0 progs) s).mem l = (solo m0 (r0 t) (progs t)).1 l) := by
+  obtain ⟨k, hpos, _, hcrit⟩ := (sim2_run hok s (sim2_init T m0 r0 progs)).ex
+  have hk : ∀ t, (progs t).take (k t) = progs t := by
+    intro t
+    have := hf t
+    rw [(hpos t).1] at this
+    exact List.take_of_length_le (List.drop_eq_nil_iff.1 this)
+  have hall : ∀ l, allUpd T m0 r0 progs k l = seqUpd T m0 r0 progs l := by
+    intro l
+    unfold seqUpd allUpd
+    congr 1
+    funext t
+    rw [hk t, List.take_of_length_le (Nat.le_refl _)]
+  refine ⟨?_, ?_⟩
+  · intro l hl
+    obtain ⟨log, hlog, hperm⟩ := hcrit l hl
+    rw [hall l] at hperm
+    rw [hlog]
+    exact applyAll_perm_rel R hrefl htrans hperm
+      (fun f hf' => hcong l f (hperm.mem_iff.1 hf'))
+      (fun f hf' g hg => hcomm l f (hperm.mem_iff.1 hf') g (hperm.mem_iff.1 hg)) _ _ (hrefl _)
+  · intro t l hl
+    rw [(hpos t).2.2 l (Or.inr hl), hk t]
+
+/-- **Collecting critical sections**: the list collected by `acc.push_back(xₜ)` under the lock is, for every order of
+entry, a permutation of the single-threaded list (`RFTrainer`: the forest as a list of (tree, out-of-bag set) pairs;
+`HypervolumeContributionMD::smallest(points,k)`: the list of (contribution, index) pairs). -/
+theorem collect_order_perm {X : Type} (items order : List X) (hp : order.Perm items) (init : List X) :
+    (applyAll init (order.map fun x => fun acc => acc ++ [x])).Perm (applyAll init (items.map fun x => fun acc => acc ++ [x])) := by
+  have h : ∀ (l : List X) (init : List X), applyAll init (l.map fun x => fun acc => acc ++ [x]) = init ++ l := by
+    intro l
+    induction l with
+    | nil => intro init; simp [applyAll]
+    | cons x l ih => intro init; simp only [List.map_cons, applyAll, List.foldl_cons] at *; rw [ih]; simp
+  rw [h, h]
+  exact hp.append_left init
+
+/-- **Reduction over a commutative monoid, for every work split.**  `val i` is the contribution of iteration `i`
+(batch `i`), `assign` is *any* split of the `n` iterations among any number of threads (each thread runs its list in
+order, starting from the identity `e`: static chunks, a dynamic schedule, one iteration per thread …), `order` is the
+order in which the threads enter the critical section.  The merged value is the single-threaded fold. -/
+theorem reduction_any_split (op : V → V → V) (e : V)
+    (hcomm : ∀ a b, op a b = op b a) (hassoc : ∀ a b c, op (op a b) c = op a (op b c)) (hid : ∀ a, op a e = a)
+    (val : Nat → V) (n : Nat) (assign order : List (List Nat))
+    (hsplit : assign.flatten.Perm (List.range n)) (horder : order.Perm assign) (init : V) :
+    (order.map fun is => is.foldl (fun x i => op x (val i)) e).foldl op init =
+      (List.range n).foldl (fun x i => op x (val i)) init := by
+  rw [foldl_partials op e hassoc hid]
+  exact foldl_perm_comm op hcomm hassoc val (horder.flatten.trans hsplit) init
+
+/-- the thread ranges of `ErrorFunction` (leftover rule, generated from the C++) are such a split … -/
+theorem errorfunction_ranges_split (B T : Nat) (hT : 1 ≤ T) :
+    ((List.range T).map fun t => List.range' (Gen.ParRegions.Site1.start B T t)
+        (Gen.ParRegions.Site1.stop B T t - Gen.ParRegions.Site1.start B T t)).flatten = List.range B := by
+  obtain ⟨h0, hlast, hnext, hle⟩ := Gen.ParRegions.tile_Site1 B T hT
+  have hT' : Gen.ParRegions.Site1.start B T T = B := by
+    have := hnext (T-1)
+    rw [show T - 1 + 1 = T by omega] at this
+    rw [← this, hlast]
+  have := flatMap_ranges (fun t => Gen.ParRegions.Site1.start B T t) (fun t => by rw [← hnext t]; exact hle t) T
+  simp only [hnext] at *
+  rw [List.flatMap_def] at this
+  rw [this, h0, hT', List.range_eq_range']
+  simp
+
+/-- … hence **`ErrorFunction::eval`/`evalDerivative` as modelled** (thread `t` folds its batch range from the identity,
+results merged under the lock in any order) returns the single-threaded fold over all batches, for every number of
+batches `B`, every thread count `T ≥ 1`, every order of entry, over any commutative monoid. -/
+theorem errorfunction_reduction (op : V → V → V) (e : V)
+    (hcomm : ∀ a b, op a b = op b a) (hassoc : ∀ a b c, op (op a b) c = op a (op b c)) (hid : ∀ a, op a e = a)
+    (val : Nat → V) (B T : Nat) (hT : 1 ≤ T) (order : List (List Nat))
+    (horder : order.Perm ((List.range T).map fun t => List.range' (Gen.ParRegions.Site1.start B T t)
+        (Gen.ParRegions.Site1.stop B T t - Gen.ParRegions.Site1.start B T t))) (init : V) :
+    (order.map fun is => is.foldl (fun x i => op x (val i)) e).foldl op init =
+      (List.range B).foldl (fun x i => op x (val i)) init :=
+  reduction_any_split op e hcomm hassoc hid val B _ order (by rw [errorfunction_ranges_split B T hT]) horder init
+
+/-- **Per-thread k-heaps merged = global k smallest** (`SimpleNearestNeighbors::getNeighbors`): `parts` is what each
+thread has seen (any number of threads, any assignment of batches to threads, any order), each thread keeps a bounded
+heap of its `k` smallest keys, the heaps are merged and the `k` smallest taken. -/
+theorem knn_heaps_merge {α : Type} [LinearOrder α] (k : Nat) (parts : List (List α)) (all : List α)
+    (hsplit : parts.flatten.Perm all) :
+    (((parts.map (heapOf k)).flatten).insertionSort (· ≤ ·)).take k = (all.insertionSort (· ≤ ·)).take k := by
+  rw [merge_heaps, sort_perm_eq hsplit]
+
+/-- **Shared batches, reference counts as atomic fetch-add.**  `l` is the reference count of a batch shared by dataset
+copies/subsets: every critical (atomic) update of `l` is a translation `v ↦ v + d` (`+1` on copy, `-1` on release), and
+along every thread's program the running total of its own updates never drops below zero (a handle is acquired before
+it is released).  Then at *every* point of *every* schedule the count is at least its initial value (the batch owned by
+the source dataset is never freed under a reader), … -/
+theorem refcount_never_below_initial (T : Nat) (m0 : Store Int) (r0 : Nat → Regs Int) (progs : Nat → List (Instr Int))
+    (hok : CritOK T progs) (l : Loc) (hl : ∃ t, l ∈ crits (progs t))
+    (htr : ∀ t k, ∀ u ∈ critUpd m0 (r0 t) ((progs t).take k) l, ∀ v, u v = v + u 0)
+    (hpre : ∀ t k, 0 ≤ deltaSum (critUpd m0 (r0 t) ((progs t).take k) l))
+    (s : List Nat) : m0 l ≤ (run (initCfg m0 r0 progs) s).mem l := by
+  obtain ⟨k, _, _, hcrit⟩ := (sim2_run hok s (sim2_init T m0 r0 progs)).ex
+  obtain ⟨log, hlog, hperm⟩ := hcrit l hl
+  have htr' : ∀ u ∈ log, ∀ v, u v = v + u 0 := by
+    intro u hu
+    have := hperm.mem_iff.1 hu
+    unfold allUpd at this
+    obtain ⟨t, _, ht⟩ := List.mem_flatMap.1 this
+    exact htr t (k t) u ht
+  rw [hlog, applyAll_translations log htr', deltaSum_perm hperm]
+  have : 0 ≤ deltaSum (allUpd T m0 r0 progs k l) := deltaSum_flatMap_nonneg _ _ (fun t _ => hpre t (k t))
+  omega
+
+/-- … and once all threads have finished and released everything they acquired, the count is back at its initial value,
+whatever the interleaving. -/
+theorem refcount_balanced_at_end (T : Nat) (m0 : Store Int) (r0 : Nat → Regs Int) (progs : Nat → List (Instr Int))
+    (hok : CritOK T progs) (l : Loc) (hl : ∃ t, l ∈ crits (progs t))
+    (htr : ∀ t k, ∀ u ∈ critUpd m0 (r0 t) ((progs t).take k) l, ∀ v, u v = v + u 0)
+    (hbal : ∀ t, deltaSum (critUpd m0 (r0 t) (progs t) l) = 0)
+    (s : List Nat) (hf : Finished (run (initCfg m0 r0 progs) s)) : (run (initCfg m0 r0 progs) s).mem l = m0 l := by
+  obtain ⟨k, hpos, _, hcrit⟩ := (sim2_run hok s (sim2_init T m0 r0 progs)).ex
+  obtain ⟨log, hlog, hperm⟩ := hcrit l hl
+  have hk : ∀ t, (progs t).take (k t) = progs t := by
+    intro t
+    have := hf t
+    rw [(hpos t).1] at this
+    exact List.take_of_length_le (List.drop_eq_nil_iff.1 this)
+  have htr' : ∀ u ∈ log, ∀ v, u v = v + u 0 := by
+    intro u hu
+    have := hperm.mem_iff.1 hu
+    unfold allUpd at this
+    obtain ⟨t, _, ht⟩ := List.mem_flatMap.1 this
+    exact htr t (k t) u ht
+  rw [hlog, applyAll_translations log htr', deltaSum_perm hperm]
+  have : deltaSum (allUpd T m0 r0 progs k l) = 0 :=
+    deltaSum_flatMap_zero _ _ (fun t _ => by rw [hk t]; exact hbal t)
+  omega
+
+/-- **Copy-on-write contents**: a location that no thread writes outside a critical section and that is not lock
+protected (the elements of a shared batch: copies and subsets only read them, `makeIndependent` writes to fresh
+storage) holds its initial value at every point of every schedule — every copy sees the right contents. -/
+theorem shared_contents_unchanged (T : Nat) (m0 : Store V) (r0 : Nat → Regs V) (progs : Nat → List (Instr V))
+    (hok : CritOK T progs) (l : Loc) (hw : ∀ t, l ∉ writes (progs t)) (hc : ∀ t, l ∉ crits (progs t))
+    (s : List Nat) : (run (initCfg m0 r0 progs) s).mem l = m0 l := by
+  obtain ⟨_, _, hunt, _⟩ := (sim2_run hok s (sim2_init T m0 r0 progs)).ex
+  exact hunt l hw hc
+
+/-- **Random-forest training.**  Tree `t` is `build (seeds t)` — a function of the seed drawn for *tree* `t` before the
+parallel loop (per-tree generators, as in the source), not of the thread that builds it.  Whatever the assignment of
+trees to threads and the order of entry into the critical section (`order`), the forest is a permutation of the
+single-threaded forest, with each tree still paired with its own out-of-bag set, and every vote that combines the
+trees' answers in a commutative monoid is the same. -/
+theorem rf_forest_schedule_independent {Tree X : Type} (build : Nat → Tree × X) (seeds : Nat → Nat) (n : Nat)
+    (order : List Nat) (horder : order.Perm (List.range n))
+    (op : V → V → V) (hcomm : ∀ a b, op a b = op b a) (hassoc : ∀ a b c, op (op a b) c = op a (op b c))
+    (answer : Tree × X → V) (init : V) :
+    (order.map fun t => build (seeds t)).Perm ((List.range n).map fun t => build (seeds t)) ∧
+    ((order.map fun t => build (seeds t)).map answer).foldl op init =
+      (((List.range n).map fun t => build (seeds t)).map answer).foldl op init := by
+  refine ⟨horder.map _, ?_⟩
+  have h := foldl_perm_comm op hcomm hassoc (fun t => answer (build (seeds t))) horder init
+  simpa [List.foldl_map] using h
+
+
+
+/-! ### generated access summaries, composed with the machine -/
+
+/-- **End to end for a generated summary.**  Let `s` be the access summary extracted from a parallel region and
+`RaceFree s` its generated obligation (`Gen/ParSummaries.lean`: `r<k>_race_free`).  Compile the region to the abstract
+machine with *any* values computed by the iterations, *any* number of iterations and *any* assignment of iterations to
+`T` threads.  If the critical updates commute (reductions), then after every complete schedule every lock-protected
+variable holds the single-threaded composition of all updates, every other written slot holds the value its iteration
+computes when running alone, and nothing else changes. -/
+theorem region_schedule_independent (s : Summary) (hrf : RaceFree s) (T : Nat) (assign : Nat → List Nat)
+    (hassign : ∀ t u, t ≠ u → ∀ i, i ∈ assign t → i ∉ assign u) (hfin : ∀ t, T ≤ t → assign t = [])
+    (val : Nat → Nat → Regs V → V) (upd : Nat → Nat → Regs V → V → V)
+    (m0 : Store V) (r0 : Nat → Regs V)
+    (hcomm : ∀ l, ∀ f ∈ seqUpd T m0 r0 (regionProgs s val upd assign) l,
+      ∀ g ∈ seqUpd T m0 r0 (regionProgs s val upd assign) l, ∀ v, f (g v) = g (f v))
+    (sched : List Nat) (hf : Finished (run (initCfg m0 r0 (regionProgs s val upd assign)) sched)) :
+    (∀ l, (∃ t, l ∈ crits (regionProgs s val upd assign t)) →
+        (run (initCfg m0 r0 (regionProgs s val upd assign)) sched).mem l =
+          applyAll (m0 l) (seqUpd T m0 r0 (regionProgs s val upd assign) l)) ∧
+    (∀ t l, l ∈ writes (regionProgs s val upd assign t) →
+        (run (initCfg m0 r0 (regionProgs s val upd assign)) sched).mem l =
+          (solo m0 (r0 t) (regionProgs s val upd assign t)).1 l) ∧
+    (∀ l, (∀ t, l ∉ writes (regionProgs s val upd assign t)) → (∀ t, l ∉ crits (regionProgs s val upd assign t)) →
+        (run (initCfg m0 r0 (regionProgs s val upd assign)) sched).mem l = m0 l) :=
+  crit_schedule_independent T m0 r0 _ (raceFree_programs_critOK s hrf T assign hassign hfin val upd) hcomm sched hf
+
+/-- the same for collecting regions (critical updates commute only up to an equivalence `R`) -/
+theorem region_schedule_independent_upto (s : Summary) (hrf : RaceFree s)
+    (R : V → V → Prop) (hrefl : ∀ v, R v v) (htrans : ∀ a b c, R a b → R b c → R a c)
+    (T : Nat) (assign : Nat → List Nat)
+    (hassign : ∀ t u, t ≠ u → ∀ i, i ∈ assign t → i ∉ assign u) (hfin : ∀ t, T ≤ t → assign t = [])
+    (val : Nat → Nat → Regs V → V) (upd : Nat → Nat → Regs V → V → V)
+    (m0 : Store V) (r0 : Nat → Regs V)
+    (hcong : ∀ l, ∀ f ∈ seqUpd T m0 r0 (regionProgs s val upd assign) l, ∀ v w, R v w → R (f v) (f w))
+    (hcomm : ∀ l, ∀ f ∈ seqUpd T m0 r0 (regionProgs s val upd assign) l,
+      ∀ g ∈ seqUpd T m0 r0 (regionProgs s val upd assign) l, ∀ v, R (f (g v)) (g (f v)))
+    (sched : List Nat) (hf : Finished (run (initCfg m0 r0 (regionProgs s val upd assign)) sched)) :
+    (∀ l, (∃ t, l ∈ crits (regionProgs s val upd assign t)) →
+        R ((run (initCfg m0 r0 (regionProgs s val upd assign)) sched).mem l)
+          (applyAll (m0 l) (seqUpd T m0 r0 (regionProgs s val upd assign) l))) ∧
+    (∀ t l, l ∈ writes (regionProgs s val upd assign t) →
+        (run (initCfg m0 r0 (regionProgs s val upd assign)) sched).mem l =
+          (solo m0 (r0 t) (regionProgs s val upd assign t)).1 l) :=
+  crit_schedule_independent_upto R hrefl htrans T m0 r0 _
+    (raceFree_programs_critOK s hrf T assign hassign hfin val upd) hcong hcomm sched hf
+
+/-- a two-variable summary (`result[i]` indexed by the loop variable, `error` updated under the lock) and its check -/
+def demoSummary : Summary := { id := "demo", hash := "", vars := [("result", .iterIndexed), ("error", .critical)] }
+example : RaceFree demoSummary := summary_race_free demoSummary (by decide)
+/-- … and with a shared scratch variable the obligation is false, not merely unproved -/
+example : ¬ RaceFree { id := "demo", hash := "", vars := [("result", .iterIndexed), ("scratch", .shared)] } :=
+  shared_write_not_race_free _ 1 (by decide)
+
+
+/-! ### explicit locks, nested critical sections -/
+
+/-- **Lock discipline ⇒ no unsynchronised conflicting access, for all interleavings.**  Machine with explicit
+`acquire`/`release` (`Model/ParLock.lean`): critical sections are ordinary instruction sequences, interleaved
+instruction by instruction with the other threads, possibly nested (several locks).  If in every thread program each
+access to a location protected by lock `k` lies lexically inside a section of `k` (and sections are well nested: no
+re-acquisition, release only of held locks), and unprotected locations written by one thread are touched by no other,
+then in the configuration reached by *any* schedule prefix no thread is about to write a location another thread is
+about to read or write. -/
+theorem lock_discipline_no_race (prot : Loc → Option Nat) (progs : Nat → List (LInstr V))
+    (hd : ∀ t, Disciplined prot (progs t))
+    (hord : ∀ t u, t ≠ u → ∀ l, prot l = none → everWrites (progs t) l → ¬ everTouches (progs u) l)
+    (m0 : Store V) (r0 : Nat → Regs V) (sched : List Nat) (t u : Nat) (htu : t ≠ u) (l : Loc) :
+    nextWrites (lrun (linit m0 r0 progs) sched) t l → ¬ nextTouches (lrun (linit m0 r0 progs) sched) u l :=
+  fun hw ht => no_race_of_inv prot progs hd hord (linv_run prot progs hd sched (linv_init m0 r0 progs)) t u htu l hw ht
+
+/-- … and a lock is held by at most one thread at any point of any schedule (mutual exclusion of each named section) -/
+theorem lock_mutual_exclusion (prot : Loc → Option Nat) (progs : Nat → List (LInstr V))
+    (hd : ∀ t, Disciplined prot (progs t)) (m0 : Store V) (r0 : Nat → Regs V) (sched : List Nat) (k t u : Nat)
+    (h1 : (lrun (linit m0 r0 progs) sched).owner k = some t) (h2 : (lrun (linit m0 r0 progs) sched).owner k = some u) : t = u := by
+  rw [h1] at h2; exact Option.some.inj h2
+
+
+/-- **The reduction pattern with a non-atomic critical section.**  On the machine with an explicit lock, `T` threads
+(or iterations) each execute `acquire; tmp := acc; acc := tmp ⊕ xₜ; release` — four separate steps, interleaved
+arbitrarily with the steps of all other threads, `acquire` blocking while the lock is held.  After every complete
+schedule the accumulator holds the single-threaded fold of all partial results, for any commutative-associative `⊕`.
+(This is what justifies treating `SHARK_CRITICAL_REGION{ acc += partial; }` as one atomic update in the theorems above;
+without the lock the same four-step code loses updates, see the example below.) -/
+theorem lock_reduction_schedule_independent (op : V → V → V)
+    (hcomm : ∀ a b, op a b = op b a) (hassoc : ∀ a b c, op (op a b) c = op a (op b c))
+    (l : Loc) (T : Nat) (x : Nat → V) (m0 : Store V) (r0 : Nat → Regs V) (sched : List Nat)
+    (hf : ∀ t, (lrun (linit m0 r0 (reduceProgs op l T x)) sched).prog t = []) :
+    (lrun (linit m0 r0 (reduceProgs op l T x)) sched).mem l = ((List.range T).map x).foldl op (m0 l) := by
+  obtain ⟨ph, log, hprog, hle, hmem, hnd, hlog, _, _⟩ := (rinv_run op l T x m0 sched (rinv_init op l T x m0 r0)).ex
+  have hdone : ∀ t, t < T → 3 ≤ ph t := by
+    intro t ht
+    have h1 := hf t
+    rw [hprog t] at h1
+    have hlen : (reduceProgs op l T x t).length = 4 := by simp [reduceProgs, ht, rmwSection]
+    have := List.drop_eq_nil_iff.1 h1
+    omega
+  have hperm : log.Perm (List.range T) := by
+    apply (List.perm_ext_iff_of_nodup hnd List.nodup_range).2
+    intro t
+    rw [hlog t, List.mem_range]
+    exact ⟨fun h => h.1, fun h => ⟨h, hdone t h⟩⟩
+  rw [hmem, List.foldl_map, List.foldl_map]
+  exact foldl_perm_comm op hcomm hassoc x hperm (m0 l)
+
+example : (lrun (linit (fun _ => 100) (fun _ _ => 0) (reduceProgs (· + ·) 9 2 (fun t => t + 5)))
+            [0, 1, 0, 1, 0, 1, 0, 1, 1, 1, 1]).mem 9 = 111 := by decide
+
+/-- two threads, nested sections (lock 0 outside, lock 1 inside), accumulators 9 (under lock 0) and 8 (under lock 1) -/
+def nestedProgs : Nat → List (LInstr Nat)
+  | 0 => [.acquire 0, .load 0 9, .acquire 1, .load 1 8, .store 8 (fun r => r 1 + 1), .release 1, .store 9 (fun r => r 0 + 10), .release 0]
+  | 1 => [.acquire 0, .load 0 9, .store 9 (fun r => r 0 + 20), .release 0]
+  | _ => []
+
+/-- the example programs obey the discipline (location 9 under lock 0, location 8 under lock 1) -/
+example : ∀ t, Disciplined (fun l => if l = 9 then some 0 else if l = 8 then some 1 else none) (nestedProgs t) := by
+  intro t
+  apply disciplined_of_check
+  match t with
+  | 0 => decide
+  | 1 => decide
+  | _ + 2 => rfl
+
+/-- thread 1 is blocked while thread 0 is inside its section: both orders of entry give 9 ↦ 30, 8 ↦ 1 -/
+example : (lrun (linit (fun _ => 0) (fun _ _ => 0) nestedProgs) [0, 0, 1, 1, 0, 0, 0, 1, 0, 0, 0, 1, 1, 1, 1]).mem 9 = 30 ∧
+          (lrun (linit (fun _ => 0) (fun _ _ => 0) nestedProgs) [1, 0, 1, 1, 0, 1, 0, 0, 0, 0, 0, 0, 0, 0]).mem 9 = 30 ∧
+          (lrun (linit (fun _ => 0) (fun _ _ => 0) nestedProgs) [1, 0, 1, 1, 0, 1, 0, 0, 0, 0, 0, 0, 0, 0]).mem 8 = 1 := by decide
+
+/-- without the lock the same read-modify-write loses an update under a suitable interleaving -/
+example : (lrun (linit (fun _ => 0) (fun _ _ => 0)
+    (fun t => if t < 2 then [LInstr.load 0 9, LInstr.store 9 (fun r => r 0 + 1)] else [])) [0, 1, 0, 1]).mem 9 = 1 := by decide
+
+
+/-! ### shared copies and batch subsets used concurrently (copy-on-write model of `Data<T>`) -/
+
+/-- **Concurrent shared copies / subsets are safe and see the right contents.**  Every thread runs an arbitrary list of
+operations on shared batches: `inc l d` = atomic fetch-add on the reference count `l` (copy/subset: `+1` per batch,
+destruction: `-1`), `read r l` = read batch contents, `own l v` = write storage that only this thread uses
+(`makeIndependent`).  Reference counts are touched by fetch-add only, and every handle is acquired before it is
+released (`hpre`).  Then, for every number of threads and **at every point of every interleaving**:
+* each reference count is at least its initial value (a batch still owned by the source is never freed under a reader),
+* every location that is not a reference count and not thread-owned storage — the contents of every shared batch —
+  holds its initial value, so every copy and subset reads the right contents,
+* when all threads are done and every thread released what it acquired, all counts are back at their initial value. -/
+theorem shared_copies_safe (T : Nat) (ops : Nat → List ROp) (hfin : ∀ t, T ≤ t → ops t = [])
+    (hrc : ∀ t u l d, ROp.inc l d ∈ ops t → (∀ r, ROp.read r l ∉ ops u) ∧ (∀ v, ROp.own l v ∉ ops u))
+    (hown : ∀ t u, t ≠ u → ∀ l v, ROp.own l v ∈ ops t → (∀ r, ROp.read r l ∉ ops u) ∧ (∀ w, ROp.own l w ∉ ops u))
+    (hpre : ∀ t k l, 0 ≤ netDelta l ((ops t).take k))
+    (m0 : Store Int) (r0 : Nat → Regs Int) (sched : List Nat) :
+    (∀ l, (∃ t d, ROp.inc l d ∈ ops t) → m0 l ≤ (run (initCfg m0 r0 (fun t => compileOps (ops t))) sched).mem l) ∧
+    (∀ l, (∀ t v, ROp.own l v ∉ ops t) → (∀ t d, ROp.inc l d ∉ ops t) →
+        (run (initCfg m0 r0 (fun t => compileOps (ops t))) sched).mem l = m0 l) ∧
+    (Finished (run (initCfg m0 r0 (fun t => compileOps (ops t))) sched) → (∀ t l, netDelta l (ops t) = 0) →
+        ∀ l, (∃ t d, ROp.inc l d ∈ ops t) → (run (initCfg m0 r0 (fun t => compileOps (ops t))) sched).mem l = m0 l) := by
+  have hok : CritOK T (fun t => compileOps (ops t)) := by
+    refine ⟨?_, ?_, ?_⟩
+    · intro t u htu l hl hacc
+      obtain ⟨v, hv⟩ := (mem_writes_compile l _).1 hl
+      rcases hacc with h | h
+      · obtain ⟨r, hr⟩ := (mem_reads_compile l _).1 h
+        exact (hown t u htu l v hv).1 r hr
+      · obtain ⟨w, hw⟩ := (mem_writes_compile l _).1 h
+        exact (hown t u htu l v hv).2 w hw
+    · intro t u l hl hacc
+      obtain ⟨d, hd⟩ := (mem_crits_compile l _).1 hl
+      rcases hacc with h | h
+      · obtain ⟨r, hr⟩ := (mem_reads_compile l _).1 h
+        exact (hrc t u l d hd).1 r hr
+      · obtain ⟨w, hw⟩ := (mem_writes_compile l _).1 h
+        exact (hrc t u l d hd).2 w hw
+    · intro t ht; simp [hfin t ht, compileOps]
+  refine ⟨?_, ?_, ?_⟩
+  · intro l ⟨t, d, hd⟩
+    apply refcount_never_below_initial T m0 r0 _ hok l ⟨t, (mem_crits_compile l _).2 ⟨d, hd⟩⟩
+    · intro u k; rw [compileOps_take]; exact (critUpd_compile l _ m0 (r0 u)).1
+    · intro u k; rw [compileOps_take, (critUpd_compile l _ m0 (r0 u)).2]; exact hpre u k l
+  · intro l hw hc
+    apply shared_contents_unchanged T m0 r0 _ hok l
+    · intro t h; obtain ⟨v, hv⟩ := (mem_writes_compile l _).1 h; exact hw t v hv
+    · intro t h; obtain ⟨d, hd⟩ := (mem_crits_compile l _).1 h; exact hc t d hd
+  · intro hf hbal l ⟨t, d, hd⟩
+    apply refcount_balanced_at_end T m0 r0 _ hok l ⟨t, (mem_crits_compile l _).2 ⟨d, hd⟩⟩ _ _ sched hf
+    · intro u k; rw [compileOps_take]; exact (critUpd_compile l _ m0 (r0 u)).1
+    · intro u; rw [(critUpd_compile l _ m0 (r0 u)).2]; exact hbal u l
+
+/-- two threads: copy a two-batch dataset (counts 10, 11; contents 20, 21), read it, thread 1 also makes its copy
+independent (fresh storage 31), both release -/
+def cowOps : Nat → List ROp
+  | 0 => [.inc 10 1, .inc 11 1, .read 0 20, .read 1 21, .inc 10 (-1), .inc 11 (-1)]
+  | 1 => [.inc 11 1, .read 0 21, .own 31 7, .inc 11 (-1)]
+  | _ => []
+
+example : (run (initCfg (fun l => if l = 10 ∨ l = 11 then 1 else 5) (fun _ _ => 0) (fun t => compileOps (cowOps t)))
+            [0, 1, 0, 1, 0]).mem 11 = 3 ∧
+          (run (initCfg (fun l => if l = 10 ∨ l = 11 then 1 else 5) (fun _ _ => 0) (fun t => compileOps (cowOps t)))
+            [0, 1, 0, 1, 0, 1, 1, 0, 0, 0]).mem 11 = 1 := by decide
+
+/-! ### the executable models run by `drv_c20` equal the single-threaded specification -/
+
+theorem chunks_flatten {α : Type} (f c : Nat) : ∀ l : List α, (ParModel.chunks f c l).flatten = l := by
+  induction f with
+  | zero => intro l; cases l <;> simp [ParModel.chunks]
+  | succ f ih =>
+    intro l
+    cases l with
+    | nil => simp [ParModel.chunks]
+    | cons a l => simp [ParModel.chunks, ih, List.take_append_drop]
+
+theorem model_ins_eq (x : Nat) (l : List Nat) : ParModel.ins x l = l.orderedInsert (· ≤ ·) x := by
+  induction l with
+  | nil => rfl
+  | cons b l ih => simp only [ParModel.ins, List.orderedInsert, ih]
+
+theorem model_sort_eq (l : List Nat) : ParModel.sort l = l.insertionSort (· ≤ ·) := by
+  induction l with
+  | nil => rfl
+  | cons a l ih =>
+    have : ParModel.sort (a :: l) = ParModel.ins a (ParModel.sort l) := rfl
+    rw [this, ih, model_ins_eq]; rfl
+
+theorem model_heap_eq (k : Nat) (l : List Nat) : ParModel.heap k l = heapOf k l := by
+  have : ParModel.push k = hpush k := by
+    funext h x; simp [ParModel.push, hpush, model_ins_eq]
+  unfold ParModel.heap heapOf; rw [this]
+
+/-- **the modelled neighbour search** (batches cut into one contiguous chunk per thread, one bounded heap per thread,
+heaps merged) returns the `k` smallest distances of the whole data set, sorted — for every thread count, every `k`,
+every batching -/
+theorem knn_model_spec (T k : Nat) (batches : List (List Nat)) :
+    ParModel.knn T k batches = (ParModel.sort batches.flatten).take k := by
+  unfold ParModel.knn
+  rw [model_sort_eq, model_sort_eq]
+  have hh : (ParModel.threadShares T batches).map (ParModel.heap k) = (ParModel.threadShares T batches).map (heapOf k) := by
+    apply List.map_congr_left; intro l _; exact model_heap_eq k l
+  rw [hh]
+  apply knn_heaps_merge
+  have hfl : ∀ L : List (List (List Nat)), (L.map List.flatten).flatten = L.flatten.flatten := by
+    intro L; induction L with
+    | nil => rfl
+    | cons a L ih => simp [ih]
+  unfold ParModel.threadShares
+  simp only []
+  rw [hfl, chunks_flatten]
+
+/-- **the modelled work split of `ErrorFunction::eval`** (`numThreads = min(T,B)`, ranges from the generated
+arithmetic) lists consecutive ranges that cover `[0,B)` exactly: concatenated they are `0,1,…,B-1` -/
+theorem ranges_model_cover (B T : Nat) (hB : 1 ≤ B) (hT : 1 ≤ T) :
+    ((ParModel.ranges B T).map fun r => List.range' r.1 (r.2 - r.1)).flatten = List.range B := by
+  have h := errorfunction_ranges_split B (min T B) (by omega)
+  unfold ParModel.ranges
+  simp only [List.map_map]
+  exact h
+
+example : ParModel.knn 3 2 [[4, 1], [9, 3], [2, 0]] = [0, 1] := by decide
+example : ParModel.ranges 10 4 = [(0, 3), (3, 6), (6, 8), (8, 10)] := by decide
+
+/-! ### non-vacuity of the widened statements -/
+
+/-- a consumer that is *not* a function of the multiset — e.g. feeding the trees in list order to one sequential random
+generator, or an unstable selection among equal keys — does see the order: the collected lists differ -/
+example : applyAll ([] : List Nat) ([1, 2].map fun x => fun acc => acc ++ [x]) ≠
+          applyAll ([] : List Nat) ([2, 1].map fun x => fun acc => acc ++ [x]) := by decide
+
+example : (([[0, 1], [2]] : List (List Nat)).map fun is => is.foldl (fun x i => x + (i + 1)) 0).foldl (· + ·) 5 =
+          (List.range 3).foldl (fun x i => x + (i + 1)) 5 := by decide
+
+/-- 3 threads, `k = 2`: heaps [1,4], [2,3], [0] merge to the global two smallest -/
+example : ((([[4, 1, 9], [3, 2], [0]] : List (List Nat)).map (heapOf 2)).flatten.insertionSort (· ≤ ·)).take 2 = [0, 1] := by decide
+
+/-- two readers of one shared batch: count (location 7) +1, read the contents (location 3), count -1 -/
+def rcProgs : Nat → List (Instr Int)
+  | 0 => [.crit 7 (fun _ v => v + 1), .load 0 3, .crit 7 (fun _ v => v + -1)]
+  | 1 => [.crit 7 (fun _ v => v + 1), .load 0 3, .crit 7 (fun _ v => v + -1)]
+  | _ => []
+
+example : (run (initCfg (fun l => if l = 7 then 1 else 42) (fun _ _ => 0) rcProgs) [0, 1, 1, 0]).mem 7 = 3 ∧
+          (run (initCfg (fun l => if l = 7 then 1 else 42) (fun _ _ => 0) rcProgs) [0, 1, 1, 0, 0, 1]).mem 7 = 1 ∧
+          ((run (initCfg (fun l => if l = 7 then 1 else 42) (fun _ _ => 0) rcProgs) [0, 1, 1, 0, 0, 1]).ths 1).regs 0 = 42 := by decide
+
+example : Gen.ParRegions.Site1.start 7 3 1 = 3 ∧ Gen.ParRegions.Site1.stop 7 3 2 = 7 := by decide
 
 /-! ### non-vacuity -/
 
